@@ -19,7 +19,9 @@ def main():
     if o.strip():
         print("refusing: /repo is not clean")
         return
-    summary = {}
+    spath = VERIF / "seeded" / "SUMMARY.json"
+    # explicit ids: merge into the existing summary; no ids: start afresh
+    summary = json.loads(spath.read_text()) if (sys.argv[1:] and spath.exists()) else {}
     for sid in ids:
         d = VERIF / "seeded" / sid
         prop = sid.split("-")[0][:3]
